@@ -56,6 +56,7 @@ fn t2l(b: &Value) {
     log::set_logger(&REC_LOGGER).unwrap();
     log::set_max_level(log::LevelFilter::Trace);
     let mut guards: Vec<dispatch::DefaultGuard> = vec![];
+    let mut constructed: Vec<Dispatch> = vec![];
     for (i, st) in b["steps"].as_array().unwrap().iter().enumerate() {
         RECORDS.lock().unwrap().clear();
         let mut line = json!({"ev": "t2l", "i": i, "op": st["op"]});
@@ -84,6 +85,8 @@ fn t2l(b: &Value) {
             "global" => {
                 let _ = dispatch::set_global_default(Dispatch::new(Nop));
             }
+            // a collector is constructed (and kept alive) but never installed: nothing has been "set"
+            "construct" => constructed.push(Dispatch::new(Nop)),
             o => panic!("op {o}"),
         }
         line["has_been_set"] = json!(dispatch::has_been_set());
@@ -205,7 +208,10 @@ fn l2t(b: &Value) {
                     if r["line"].as_i64().unwrap() >= 0 {
                         rb.line(Some(r["line"].as_i64().unwrap() as u32));
                     }
-                    if r["via_macro"].as_bool().unwrap_or(false) {
+                    if r["via"].as_str() == Some("format_trace") {
+                        // the public entry point used by the env_logger integration: no LogTracer in front
+                        let _ = tracing_log::format_trace(&rb.build());
+                    } else if r["via_macro"].as_bool().unwrap_or(false) {
                         log::log!(target: target, level, "{}", msg);
                     } else {
                         log::logger().log(&rb.build());
